@@ -74,6 +74,37 @@ def model_partition(part, what):
     return out, seen
 
 
+def partition_views(part, what):
+    """the accessors of an OrderedPartition describe the same partition as its `partition` list"""
+    groups = list(part.partition)
+    if [g for g in lib.must(lambda: list(iter(part)))] != groups:
+        raise Violation("%s: iterating gives other groups than .partition" % what)
+    union = set()
+    for g in groups:
+        union |= set(g)
+    els = lib.must(lambda: part.elements)
+    if set(els) != union or lib.must(lambda: part.nb_elements) != len(union):
+        raise Violation("%s: elements / nb_elements (%s, %r) disagree with the groups %s" % (
+            what, sorted((lib.raw(e) for e in els), key=str), part.nb_elements, groups))
+    where = {}
+    for i, g in enumerate(groups):
+        if lib.must(part.get_group_index, i) != g:
+            raise Violation("%s: get_group_index(%d) is not group %d" % (what, i, i))
+        for e in g:
+            where[e] = i
+            if lib.must(part.which_index_is, e) != i:
+                raise Violation("%s: which_index_is(%r) = %r, the element is in group %d" % (
+                    what, lib.raw(e), part.which_index_is(e), i))
+    flat = list(where)
+    for a in flat[:6]:
+        for b in flat[:6]:
+            if bool(lib.must(part.in_same_group, a, b)) != (where[a] == where[b]):
+                raise Violation("%s: in_same_group(%r, %r) = %r but their groups are %d and %d" % (
+                    what, lib.raw(a), lib.raw(b), part.in_same_group(a, b), where[a], where[b]))
+    if lib.must(part.which_index_is, lib.Element("no such element")) != -1:
+        raise Violation("%s: which_index_is of a foreign element is not -1" % what)
+
+
 def same_value(a, b, scheme):
     return a == b if lib.is_dyadic(scheme) else abs(float(a) - float(b)) <= 1e-6
 
@@ -93,6 +124,7 @@ def check_partition(case, ctx):
     ctx.stats.case(case, nt, labs + gen.dataset_labels(case["dataset"]) + gen.scheme_labels(scheme))
     part = lib.must(OrderedPartition.parcons_partition, d, s)
     groups, seen = model_partition(part.partition, "ParCons partition")
+    partition_views(part, "ParCons partition")
     if seen != set(inst.elements):
         raise Violation("ParCons partition covers %s, universe is %s" % (sorted(seen, key=str), inst.elements))
     best = inst.sc.to_fraction(inst.best_consistent_scaled(groups))
